@@ -77,9 +77,67 @@ fn run(code: u16, ct: bool, close: bool, extra: &[(&str, &str)], body_len: usize
     }
     None
 }
+/// a body of unknown length (event stream): events whose blocks have exactly the lengths `lens` -- chunk-size digit
+/// boundaries included -- must come back as their concatenation, framed by transfer-encoding: chunked alone
+fn run_stream(lens: &[usize], chunk: usize, code: u16) -> Option<String> {
+    let desc = format!("stream code={code} lens={lens:?} write_chunk={chunk}");
+    let (mut sender, resp) = Response::event_stream();
+    let resp = if code == 200 { resp } else { let mut r = resp; r.code = code; r };
+    let mut want = Vec::new();
+    for (i, l) in lens.iter().enumerate() {
+        let data: String = std::iter::repeat((b'a' + (i % 26) as u8) as char).take(l.saturating_sub(7)).collect();
+        let ev = servlin::Event::Message(data);
+        ev.push_to(&mut want);
+        sender.send(ev);
+    }
+    drop(sender);
+    let mut w = RecWriter::new(); w.max_per_call = chunk;
+    let r = std::panic::catch_unwind(std::panic::AssertUnwindSafe(|| block_on(write_http_response(&mut w, &resp, false))));
+    let r = match r { Ok(r) => r, Err(_) => return Some(format!("{desc} expected=no-panic actual=panic")) };
+    if r.is_err() { return Some(format!("{desc} expected=Ok actual={r:?}")); }
+    let p = match parse(&w.out) { Ok(p) => p, Err(e) => return Some(format!("{desc} expected=well-formed actual=invalid({e})")) };
+    if p.code != code { return Some(format!("{desc} expected=code={code} actual={}", p.code)); }
+    if !p.headers.iter().any(|(n, v)| n.eq_ignore_ascii_case("transfer-encoding") && v == "chunked") || p.headers.iter().any(|(n, _)| n.eq_ignore_ascii_case("content-length")) {
+        return Some(format!("{desc} expected=transfer-encoding: chunked and no content-length actual={:?}", p.headers)); }
+    if p.body != want { return Some(format!("{desc} expected=body-intact ({} bytes) actual={} bytes", want.len(), p.body.len())); }
+    None
+}
+/// the other body sources of known length: static text, static bytes, a file
+fn run_kind(kind: &str, body_len: usize, chunk: usize) -> Option<String> {
+    let desc = format!("source kind={kind} body_len={body_len} write_chunk={chunk}");
+    let body: Vec<u8> = (0..body_len).map(|i| b'a' + (i % 26) as u8).collect();
+    let dir = std::env::temp_dir().join(format!("verif-c06-{}", std::process::id()));
+    let rb = match kind {
+        "static_str" => ResponseBody::StaticStr(Box::leak(String::from_utf8(body.clone()).unwrap().into_boxed_str())),
+        "static_bytes" => ResponseBody::StaticBytes(Box::leak(body.clone().into_boxed_slice())),
+        _ => { std::fs::create_dir_all(&dir).unwrap(); let p = dir.join(format!("f{body_len}")); std::fs::write(&p, &body).unwrap(); ResponseBody::File(p, body_len as u64) }
+    };
+    let resp = Response::new(200).with_body(rb);
+    let mut w = RecWriter::new(); w.max_per_call = chunk;
+    let r = std::panic::catch_unwind(std::panic::AssertUnwindSafe(|| block_on(write_http_response(&mut w, &resp, false))));
+    let _ = std::fs::remove_dir_all(&dir);
+    let r = match r { Ok(r) => r, Err(_) => return Some(format!("{desc} expected=no-panic actual=panic")) };
+    if r.is_err() { return Some(format!("{desc} expected=Ok actual={r:?}")); }
+    let p = match parse(&w.out) { Ok(p) => p, Err(e) => return Some(format!("{desc} expected=well-formed actual=invalid({e})")) };
+    if p.body != body { return Some(format!("{desc} expected=body-intact actual=differs")); }
+    None
+}
+fn stream_cases() -> Vec<(Vec<usize>, usize, u16)> {
+    let mut v = Vec::new();
+    for l in [7usize, 8, 15, 16, 17, 22, 255, 256, 257, 262, 4095, 4096, 4097, 4102, 65527, 65528] { v.push((vec![l], usize::MAX, 200)); v.push((vec![20, l, 20], 7777, 200)); }
+    v.push((vec![], usize::MAX, 200)); v.push((vec![7; 40], 3, 200)); v.push((vec![4096, 4096, 256, 16], usize::MAX, 404));
+    v
+}
+fn kind_cases() -> Vec<(&'static str, usize, usize)> {
+    let mut v = Vec::new();
+    for k in ["static_str", "static_bytes", "file"] { for bl in [0usize, 1, 65535, 65536, 65537, 200000] { for ch in [usize::MAX, 4099] { v.push((k, bl, ch)); } } }
+    v
+}
 fn replay_extra(key: &str) -> bool {
     // the part of the grid added after the first version: codes, value alphabet, name alphabet
     let mut hit = false;
+    for (l, ch, code) in stream_cases() { if let Some(m) = run_stream(&l, ch, code) { if m.starts_with(key) { hit = true; } } }
+    for (k, bl, ch) in kind_cases() { if let Some(m) = run_kind(k, bl, ch) { if m.starts_with(key) { hit = true; } } }
     for code in 100u16..=999 { for close in [false, true] { if let Some(m) = run(code, false, close, &[], 0, usize::MAX) { if m.starts_with(key) { hit = true; } } } }
     let mut vals: Vec<String> = (0x20u8..0x7f).map(|c| format!("a{}b", c as char)).collect();
     vals.push("a\tb".to_string()); vals.push("a \t b".to_string()); vals.push("x".repeat(300));
@@ -130,6 +188,8 @@ fn main() {
         n += 1;
         if let Some(m) = run(200, false, false, &[(name.as_str(), "v")], 1, usize::MAX) { if found.len() < 6 { found.push(m) } }
     }
+    for (l, ch, code) in stream_cases() { n += 1; if let Some(m) = run_stream(&l, ch, code) { if found.len() < 6 { found.push(m) } } }
+    for (k, bl, ch) in kind_cases() { n += 1; if let Some(m) = run_kind(k, bl, ch) { if found.len() < 6 { found.push(m) } } }
     println!("EVALUATED {n}");
     for f in &found { println!("WITNESS {f}"); }
     std::process::exit(if found.is_empty() { 0 } else { 1 });
